@@ -14,6 +14,12 @@ open PycModel
 
 abbrev Tk := String × String
 
+/-- what stays fixed while a translation unit is parsed: which identifiers are type names (`ty`),
+and the whole token sequence as the parser will see it (`all`, classes as the lexer assigns them) -/
+structure Env where
+  ty : String → Bool
+  all : List Tk
+
 /-- the class the lexer gives a raw token when `ty` says which identifiers are type names -/
 def clsF (ty : String → Bool) (t : Tk) : Tk :=
   (if t.1 == "ID" && ty t.2 then "TYPEID" else t.1, t.2)
@@ -87,17 +93,20 @@ theorem Agrees.lex {ty : String → Bool} {scopes : List Scope} (h : Agrees ty s
 /-- `e`: the end-of-input marker (`None`) has already been lexed into the buffer.
 `rt` are the tokens still to be lexed, as the scanner delivers them (every identifier `ID`);
 `toks` shows them with the class the lexer callback will give them (`TYPEID` for type names). -/
-structure SeesT (ty : String → Bool) (s : PState) (toks : List Tk) : Prop where
+structure SeesT (env : Env) (s : PState) (toks : List Tk) : Prop where
   buffered : ∃ (bt : List PTok) (rt : List Tk) (e : Bool),
     s.buf.toList.drop s.idx = bt.map some ++ (if e then [none] else []) ∧
     s.raw = rt.map (fun t => SEv.tok t.1 t.2) ++ [.eof] ∧
-    toks = bt.map (fun t => (t.kind, t.val)) ++ rt.map (clsF ty) ∧
+    toks = bt.map (fun t => (t.kind, t.val)) ++ rt.map (clsF env.ty) ∧
     (e = true → rt = []) ∧
-    Agrees ty s.scopes ∧
+    Agrees env.ty s.scopes ∧
     (e = false → s.pulled = s.buf.size)
   idx_le : s.idx ≤ s.buf.size
   /-- a token's `idx` is its position in the buffer (= in the stripped event stream) -/
   pos : ∀ (j : Nat) (t : PTok), s.buf[j]? = some (some t) → t.idx = j
+  /-- the tokens already consumed, followed by `toks`, are the whole input -/
+  hist : ∃ ht : List PTok, s.buf.toList.take s.idx = ht.map some ∧
+    env.all = ht.map (fun t => (t.kind, t.val)) ++ toks
 
 theorem bind_apply {α β} (m : P α) (f : α → P β) (s : PState) :
     (m >>= f) s = match m s with | .ok a s' => f a s' | .err e => .err e := rfl
@@ -122,11 +131,21 @@ theorem lexToken_tok {ty : String → Bool} (s : PState) (k v : String) (r : Lis
       | cons a t => cases t <;> simp [hs]
     · simp [h1, h2]
 
-variable {ty : String → Bool}
+variable {env : Env}
 
-theorem SeesT.agrees {s : PState} {toks : List Tk} (h : SeesT ty s toks) : Agrees ty s.scopes := by
-  obtain ⟨⟨_, _, _, _, _, _, _, hn, _⟩, _, _⟩ := h
+theorem SeesT.agrees {s : PState} {toks : List Tk} (h : SeesT env s toks) : Agrees env.ty s.scopes := by
+  obtain ⟨⟨_, _, _, _, _, _, _, hn, _⟩, _, _, _⟩ := h
   exact hn
+
+
+theorem take_push_le {α} (a : Array α) (x : α) (i : Nat) (h : i ≤ a.size) :
+    (a.push x).toList.take i = a.toList.take i := by
+  simp only [Array.toList_push]
+  exact List.take_append_of_le_length (by simpa using h)
+
+theorem take_succ_of_get {α} {l : List α} {i : Nat} {x : α} (h : l[i]? = some x) :
+    l.take (i + 1) = l.take i ++ [x] := by
+  rw [List.take_succ, h]; rfl
 
 theorem getElem?_of_drop_cons {α} {l : List α} {i : Nat} {x : α} {xs : List α}
     (h : l.drop i = x :: xs) : l[i]? = some x := by
@@ -174,10 +193,11 @@ theorem pos_push_none {buf : Array (Option PTok)}
 
 /-- `peek` on a state that sees at least one token: returns it (its index is the read position),
 consumes nothing -/
-theorem peek_spec (s : PState) (k v : String) (toks : List Tk) (h : SeesT ty s ((k, v) :: toks)) :
-    ∃ s', peek s = .ok (some ⟨k, v, s.idx⟩) s' ∧ SeesT ty s' ((k, v) :: toks) ∧ isTypeInScopes s'.scopes = ty ∧ s'.idx = s.idx ∧
+theorem peek_spec (s : PState) (k v : String) (toks : List Tk) (h : SeesT env s ((k, v) :: toks)) :
+    ∃ s', peek s = .ok (some ⟨k, v, s.idx⟩) s' ∧ SeesT env s' ((k, v) :: toks) ∧ isTypeInScopes s'.scopes = env.ty ∧ s'.idx = s.idx ∧
       BufExt s s' ∧ s.buf.size ≤ s'.buf.size := by
-  obtain ⟨⟨bt, rt, e, hbuf, hraw, htoks, he, hneu, hpul⟩, hle, hpos⟩ := h
+  obtain ⟨⟨bt, rt, e, hbuf, hraw, htoks, he, hneu, hpul⟩, hle, hpos, hhist⟩ := h
+  obtain ⟨ht, hht, hall⟩ := hhist
   cases bt with
   | cons t bt' =>
     simp only [List.map_cons, List.cons_append, List.cons.injEq, Prod.mk.injEq] at htoks
@@ -189,7 +209,7 @@ theorem peek_spec (s : PState) (k v : String) (toks : List Tk) (h : SeesT ty s (
       have := (Array.getElem?_eq_some_iff.mp hget).1
       omega
     have hti := hpos _ _ hget
-    refine ⟨{ s with ticks := s.ticks + 1 }, ?_, ⟨⟨t :: bt', rt, e, hbuf, hraw, ?_, he, hneu, hpul⟩, hle, hpos⟩, hneu.funext, rfl, fun j _ => rfl, Nat.le_refl _⟩
+    refine ⟨{ s with ticks := s.ticks + 1 }, ?_, ⟨⟨t :: bt', rt, e, hbuf, hraw, ?_, he, hneu, hpul⟩, hle, hpos, ⟨ht, hht, hall⟩⟩, hneu.funext, rfl, fun j _ => rfl, Nat.le_refl _⟩
     · simp only [peek, peekK, fill]
       simp [hlt, hget]
       cases t; simp_all
@@ -203,7 +223,7 @@ theorem peek_spec (s : PState) (k v : String) (toks : List Tk) (h : SeesT ty s (
     simp only [List.map_cons, List.cons.injEq] at htoks
     obtain ⟨hkv, htl⟩ := htoks
     have hv : v = v0 := congrArg Prod.snd hkv
-    have hk : k = (clsF ty (k0, v0)).1 := congrArg Prod.fst hkv
+    have hk : k = (clsF env.ty (k0, v0)).1 := congrArg Prod.fst hkv
     subst hv
     subst hk
     have he' : e = false := by cases e with | false => rfl | true => simp at he
@@ -213,13 +233,13 @@ theorem peek_spec (s : PState) (k v : String) (toks : List Tk) (h : SeesT ty s (
     have hp := hpul rfl
     simp only [List.map_cons, List.cons_append] at hraw
     let s0 : PState := { s with ticks := s.ticks + 1 }
-    have hlex := lexToken_tok s0 k0 v _ hraw (show isTypeInScopes s0.scopes = ty from hneu.funext)
+    have hlex := lexToken_tok s0 k0 v _ hraw (show isTypeInScopes s0.scopes = env.ty from hneu.funext)
     have hst := hneu.lex k0
-    let tok : PTok := ⟨(clsF ty (k0, v)).1, v, s.pulled⟩
+    let tok : PTok := ⟨(clsF env.ty (k0, v)).1, v, s.pulled⟩
     refine ⟨{ s0 with raw := rt'.map (fun t => SEv.tok t.1 t.2) ++ [.eof], pulled := s.pulled + 1,
                        fileRef := s.pulled + 1, lexCalls := s.lexCalls + 1,
                        buf := s.buf.push (some tok), scopes := lexScopes k0 s.scopes }, ?_,
-            ⟨⟨[tok], rt', false, ?_, rfl, ?_, by simp, hst, ?_⟩, ?_, ?_⟩, hst.funext, rfl, bufExt_push s _ _ rfl, by simp⟩
+            ⟨⟨[tok], rt', false, ?_, rfl, ?_, by simp, hst, ?_⟩, ?_, ?_, ⟨ht, by show (s.buf.push (some tok)).toList.take s.idx = _; rw [take_push_le _ _ _ hle]; exact hht, hall⟩⟩, hst.funext, rfl, bufExt_push s _ _ rfl, by simp⟩
     · have hlt : s0.buf.size < s0.idx + 1 := by show s.buf.size < s.idx + 1; omega
       have hfill : fill 1 1 { s with ticks := s.ticks + 1 } = .ok ()
           { s0 with raw := rt'.map (fun t => SEv.tok t.1 t.2) ++ [.eof], pulled := s.pulled + 1,
@@ -235,7 +255,7 @@ theorem peek_spec (s : PState) (k v : String) (toks : List Tk) (h : SeesT ty s (
       simp [hsz, tok, s0, hp]
     · show (s.buf.push (some tok)).toList.drop s.idx = _
       simp [hsz]
-    · show _ :: toks = [tok].map (fun t => (t.kind, t.val)) ++ rt'.map (clsF ty)
+    · show _ :: toks = [tok].map (fun t => (t.kind, t.val)) ++ rt'.map (clsF env.ty)
       rw [htl]; rfl
     · intro _; show s.pulled + 1 = (s.buf.push (some tok)).size; simp; omega
     · show s.idx ≤ (s.buf.push (some tok)).size
@@ -243,10 +263,11 @@ theorem peek_spec (s : PState) (k v : String) (toks : List Tk) (h : SeesT ty s (
     · exact pos_push_some hpos (by show s.pulled = s.buf.size; exact hp)
 
 /-- `advance` on a state that sees at least one token: returns it and moves past it -/
-theorem advance_spec (s : PState) (k v : String) (toks : List Tk) (h : SeesT ty s ((k, v) :: toks)) :
-    ∃ s', advance s = .ok ⟨k, v, s.idx⟩ s' ∧ SeesT ty s' toks ∧ isTypeInScopes s'.scopes = ty ∧ s'.idx = s.idx + 1 ∧
+theorem advance_spec (s : PState) (k v : String) (toks : List Tk) (h : SeesT env s ((k, v) :: toks)) :
+    ∃ s', advance s = .ok ⟨k, v, s.idx⟩ s' ∧ SeesT env s' toks ∧ isTypeInScopes s'.scopes = env.ty ∧ s'.idx = s.idx + 1 ∧
       BufExt s s' ∧ s.buf.size ≤ s'.buf.size ∧ s'.buf[s.idx]? = some (some ⟨k, v, s.idx⟩) := by
-  obtain ⟨⟨bt, rt, e, hbuf, hraw, htoks, he, hneu, hpul⟩, hle, hpos⟩ := h
+  obtain ⟨⟨bt, rt, e, hbuf, hraw, htoks, he, hneu, hpul⟩, hle, hpos, hhist⟩ := h
+  obtain ⟨ht, hht, hall⟩ := hhist
   cases bt with
   | cons t bt' =>
     simp only [List.map_cons, List.cons_append, List.cons.injEq, Prod.mk.injEq] at htoks
@@ -258,7 +279,7 @@ theorem advance_spec (s : PState) (k v : String) (toks : List Tk) (h : SeesT ty 
     have hlt : ¬ s.buf.size < s.idx + 1 := by omega
     have hti := hpos _ _ hget
     refine ⟨{ s with ticks := s.ticks + 1, idx := s.idx + 1 }, ?_,
-      ⟨⟨bt', rt, e, ?_, hraw, htl, he, hneu, hpul⟩, ?_, hpos⟩, hneu.funext, rfl, fun j _ => rfl, Nat.le_refl _, ?_⟩
+      ⟨⟨bt', rt, e, ?_, hraw, htl, he, hneu, hpul⟩, ?_, hpos, ⟨ht ++ [t], by show s.buf.toList.take (s.idx + 1) = _; rw [take_succ_of_get (by rw [Array.getElem?_toList]; exact hget), hht]; simp, by rw [hall]; simp [hk, hv]⟩⟩, hneu.funext, rfl, fun j _ => rfl, Nat.le_refl _, ?_⟩
     · simp only [advance, nextTok, fill, bind_apply]
       simp [hlt, hget]
       cases t; simp_all
@@ -279,7 +300,7 @@ theorem advance_spec (s : PState) (k v : String) (toks : List Tk) (h : SeesT ty 
     simp only [List.map_cons, List.cons.injEq] at htoks
     obtain ⟨hkv, htl⟩ := htoks
     have hv : v = v0 := congrArg Prod.snd hkv
-    have hk : k = (clsF ty (k0, v0)).1 := congrArg Prod.fst hkv
+    have hk : k = (clsF env.ty (k0, v0)).1 := congrArg Prod.fst hkv
     subst hv
     subst hk
     have he' : e = false := by cases e with | false => rfl | true => simp at he
@@ -289,13 +310,13 @@ theorem advance_spec (s : PState) (k v : String) (toks : List Tk) (h : SeesT ty 
     have hp := hpul rfl
     simp only [List.map_cons, List.cons_append] at hraw
     let s0 : PState := { s with ticks := s.ticks + 1 }
-    have hlex := lexToken_tok s0 k0 v _ hraw (show isTypeInScopes s0.scopes = ty from hneu.funext)
+    have hlex := lexToken_tok s0 k0 v _ hraw (show isTypeInScopes s0.scopes = env.ty from hneu.funext)
     have hst := hneu.lex k0
-    let tok : PTok := ⟨(clsF ty (k0, v)).1, v, s.pulled⟩
+    let tok : PTok := ⟨(clsF env.ty (k0, v)).1, v, s.pulled⟩
     refine ⟨{ s0 with raw := rt'.map (fun t => SEv.tok t.1 t.2) ++ [.eof], pulled := s.pulled + 1,
                        fileRef := s.pulled + 1, lexCalls := s.lexCalls + 1,
                        buf := s.buf.push (some tok), idx := s.idx + 1, scopes := lexScopes k0 s.scopes }, ?_,
-            ⟨⟨[], rt', false, ?_, rfl, ?_, by simp, hst, ?_⟩, ?_, ?_⟩, hst.funext, rfl, bufExt_push s _ _ rfl, by simp, ?_⟩
+            ⟨⟨[], rt', false, ?_, rfl, ?_, by simp, hst, ?_⟩, ?_, ?_, ⟨ht ++ [tok], by show (s.buf.push (some tok)).toList.take (s.idx + 1) = _; rw [take_succ_of_get (x := some tok) (by simp [hsz]), take_push_le _ _ _ hle, hht]; simp, by rw [hall]; simp [tok]⟩⟩, hst.funext, rfl, bufExt_push s _ _ rfl, by simp, ?_⟩
     · have hlt : s0.buf.size < s0.idx + 1 := by show s.buf.size < s.idx + 1; omega
       have hfill : fill 1 1 { s with ticks := s.ticks + 1 } = .ok ()
           { s0 with raw := rt'.map (fun t => SEv.tok t.1 t.2) ++ [.eof], pulled := s.pulled + 1,
@@ -310,7 +331,7 @@ theorem advance_spec (s : PState) (k v : String) (toks : List Tk) (h : SeesT ty 
       rfl
     · show (s.buf.push (some tok)).toList.drop (s.idx + 1) = _
       simp [hsz]
-    · show toks = ([] : List PTok).map (fun t => (t.kind, t.val)) ++ rt'.map (clsF ty)
+    · show toks = ([] : List PTok).map (fun t => (t.kind, t.val)) ++ rt'.map (clsF env.ty)
       rw [htl]; rfl
     · intro _; show s.pulled + 1 = (s.buf.push (some tok)).size; simp; omega
     · show s.idx + 1 ≤ (s.buf.push (some tok)).size
@@ -320,10 +341,11 @@ theorem advance_spec (s : PState) (k v : String) (toks : List Tk) (h : SeesT ty 
       simp [hsz, tok, hp]
 
 /-- `peek` at the end of the input returns `None` (and may record the end marker) -/
-theorem peek_end (s : PState) (h : SeesT ty s []) :
-    ∃ s', peek s = .ok none s' ∧ SeesT ty s' [] ∧ isTypeInScopes s'.scopes = ty ∧ s'.idx = s.idx ∧
+theorem peek_end (s : PState) (h : SeesT env s []) :
+    ∃ s', peek s = .ok none s' ∧ SeesT env s' [] ∧ isTypeInScopes s'.scopes = env.ty ∧ s'.idx = s.idx ∧
       BufExt s s' ∧ s.buf.size ≤ s'.buf.size := by
-  obtain ⟨⟨bt, rt, e, hbuf, hraw, htoks, he, hneu, hpul⟩, hle, hpos⟩ := h
+  obtain ⟨⟨bt, rt, e, hbuf, hraw, htoks, he, hneu, hpul⟩, hle, hpos, hhist⟩ := h
+  obtain ⟨ht, hht, hall⟩ := hhist
   have hbt : bt = [] := by cases bt with | nil => rfl | cons _ _ => simp at htoks
   have hrt : rt = [] := by cases rt with | nil => rfl | cons _ _ => simp [hbt] at htoks
   subst hbt hrt
@@ -338,7 +360,7 @@ theorem peek_end (s : PState) (h : SeesT ty s []) :
       have := (Array.getElem?_eq_some_iff.mp hget).1
       omega
     refine ⟨{ s with ticks := s.ticks + 1 }, ?_,
-      ⟨⟨[], [], true, by simpa using hbuf, by simpa using hraw, rfl, by simp, hneu, by simp⟩, hle, hpos⟩, hneu.funext, rfl, fun j _ => rfl, Nat.le_refl _⟩
+      ⟨⟨[], [], true, by simpa using hbuf, by simpa using hraw, rfl, by simp, hneu, by simp⟩, hle, hpos, ⟨ht, hht, hall⟩⟩, hneu.funext, rfl, fun j _ => rfl, Nat.le_refl _⟩
     simp only [peek, peekK, fill]
     simp [hlt, hget]
   | false =>
@@ -356,7 +378,7 @@ theorem peek_end (s : PState) (h : SeesT ty s []) :
       simp only [fill, hlt, ↓reduceIte, hlex]
       rfl
     refine ⟨{ s0 with fileRef := s.pulled + 1, lexCalls := s.lexCalls + 1, buf := s.buf.push none }, ?_,
-      ⟨⟨[], [], true, ?_, by simpa using hraw, rfl, by simp, hneu, by simp⟩, ?_, pos_push_none hpos⟩, hneu.funext, rfl, bufExt_push s _ _ rfl, by simp⟩
+      ⟨⟨[], [], true, ?_, by simpa using hraw, rfl, by simp, hneu, by simp⟩, ?_, pos_push_none hpos, ⟨ht, by show (s.buf.push none).toList.take s.idx = _; rw [take_push_le _ _ _ hle]; exact hht, hall⟩⟩, hneu.funext, rfl, bufExt_push s _ _ rfl, by simp⟩
     · show peekK 1 s = _
       unfold peekK
       simp only [show ((1 : Nat) == 0) = false from rfl, Bool.false_eq_true, ↓reduceIte]
@@ -371,9 +393,9 @@ theorem peek_end (s : PState) (h : SeesT ty s []) :
 /-! ## looking further ahead, and going back -/
 
 /-- `_fill(n)` when at least `n` tokens are still to come: buffers them, changes nothing else -/
-theorem fill_spec : ∀ (fuel n : Nat) (s : PState) (toks : List Tk), SeesT ty s toks → n ≤ toks.length →
+theorem fill_spec : ∀ (fuel n : Nat) (s : PState) (toks : List Tk), SeesT env s toks → n ≤ toks.length →
     n ≤ fuel + (s.buf.size - s.idx) →
-    ∃ s', fill fuel n s = .ok () s' ∧ SeesT ty s' toks ∧ isTypeInScopes s'.scopes = ty ∧ s'.idx = s.idx ∧
+    ∃ s', fill fuel n s = .ok () s' ∧ SeesT env s' toks ∧ isTypeInScopes s'.scopes = env.ty ∧ s'.idx = s.idx ∧
       BufExt s s' ∧ s.buf.size ≤ s'.buf.size ∧ s.idx + n ≤ s'.buf.size ∧ s'.ticks = s.ticks := by
   intro fuel
   induction fuel with
@@ -384,7 +406,8 @@ theorem fill_spec : ∀ (fuel n : Nat) (s : PState) (toks : List Tk), SeesT ty s
   | succ fuel ih =>
     intro n s toks h hn hf
     by_cases hlt : s.buf.size < s.idx + n
-    · obtain ⟨⟨bt, rt, e, hbuf, hraw, htoks, he, hneu, hpul⟩, hle, hpos⟩ := h
+    · obtain ⟨⟨bt, rt, e, hbuf, hraw, htoks, he, hneu, hpul⟩, hle, hpos, hhist⟩ := h
+      obtain ⟨ht, hht, hall⟩ := hhist
       have hlen : (s.buf.toList.drop s.idx).length = s.buf.size - s.idx := by simp
       have hbl : bt.length + (if e then 1 else 0) = s.buf.size - s.idx := by
         rw [← hlen, hbuf]; cases e <;> simp
@@ -404,17 +427,17 @@ theorem fill_spec : ∀ (fuel n : Nat) (s : PState) (toks : List Tk), SeesT ty s
         simp only [List.map_cons, List.cons_append] at hraw
         have hlex := lexToken_tok s k v _ hraw hneu.funext
         have hst := hneu.lex k
-        let tok : PTok := ⟨(clsF ty (k, v)).1, v, s.pulled⟩
+        let tok : PTok := ⟨(clsF env.ty (k, v)).1, v, s.pulled⟩
         let s1 : PState := { s with raw := rt'.map (fun t => SEv.tok t.1 t.2) ++ [.eof], pulled := s.pulled + 1,
                                     fileRef := s.pulled + 1, lexCalls := s.lexCalls + 1, buf := s.buf.push (some tok),
                                     scopes := lexScopes k s.scopes }
-        have hs1 : SeesT ty s1 toks := by
-          refine ⟨⟨bt ++ [tok], rt', false, ?_, rfl, ?_, by simp, hst, ?_⟩, ?_, ?_⟩
+        have hs1 : SeesT env s1 toks := by
+          refine ⟨⟨bt ++ [tok], rt', false, ?_, rfl, ?_, by simp, hst, ?_⟩, ?_, ?_, ⟨ht, by show (s.buf.push (some tok)).toList.take s.idx = _; rw [take_push_le _ _ _ hle]; exact hht, hall⟩⟩
           · show (s.buf.push (some tok)).toList.drop s.idx = _
             simp only [Array.toList_push, List.map_append, List.map_cons, List.map_nil]
             rw [List.drop_append_of_le_length (by simp; exact hle), hbuf]
             simp
-          · show toks = (bt ++ [tok]).map (fun t => (t.kind, t.val)) ++ rt'.map (clsF ty)
+          · show toks = (bt ++ [tok]).map (fun t => (t.kind, t.val)) ++ rt'.map (clsF env.ty)
             rw [htoks]; simp [tok, clsF]
           · intro _; show s.pulled + 1 = (s.buf.push (some tok)).size; simp; omega
           · show s.idx ≤ (s.buf.push (some tok)).size; simp; omega
@@ -431,18 +454,18 @@ theorem fill_spec : ∀ (fuel n : Nat) (s : PState) (toks : List Tk), SeesT ty s
 
 
 /-- `peek(k)` (k >= 1) when at least `k` tokens are still to come -/
-theorem peekK_spec (kk : Nat) (s : PState) (toks : List Tk) (t : Tk) (h : SeesT ty s toks)
+theorem peekK_spec (kk : Nat) (s : PState) (toks : List Tk) (t : Tk) (h : SeesT env s toks)
     (ht : toks[kk]? = some t) :
-    ∃ s', peekK (kk + 1) s = .ok (some ⟨t.1, t.2, s.idx + kk⟩) s' ∧ SeesT ty s' toks ∧ isTypeInScopes s'.scopes = ty ∧
+    ∃ s', peekK (kk + 1) s = .ok (some ⟨t.1, t.2, s.idx + kk⟩) s' ∧ SeesT env s' toks ∧ isTypeInScopes s'.scopes = env.ty ∧
       s'.idx = s.idx ∧ BufExt s s' ∧ s.buf.size ≤ s'.buf.size := by
   have hlen : kk + 1 ≤ toks.length := by
     have := (List.getElem?_eq_some_iff.mp ht).1; omega
   let s0 : PState := { s with ticks := s.ticks + 1 }
-  have hs0 : SeesT ty s0 toks := ⟨h.buffered, h.idx_le, h.pos⟩
+  have hs0 : SeesT env s0 toks := ⟨h.buffered, h.idx_le, h.pos, h.hist⟩
   obtain ⟨s', hf, hs', hsc, hidx, hext, hsz, hnb, _⟩ := fill_spec (kk + 1) (kk + 1) s0 toks hs0 hlen (by omega)
   refine ⟨s', ?_, hs', hsc, hidx, hext, hsz⟩
   -- the entry at idx + kk is the kk-th upcoming token
-  obtain ⟨⟨bt, rt, e, hbuf, hraw, htoks, he, hneu, hpul⟩, hle, hpos⟩ := hs'
+  obtain ⟨⟨bt, rt, e, hbuf, hraw, htoks, he, hneu, hpul⟩, hle, hpos, hhist⟩ := hs'
   have hlen' : (s'.buf.toList.drop s'.idx).length = s'.buf.size - s'.idx := by simp
   have hbl : bt.length + (if e then 1 else 0) = s'.buf.size - s'.idx := by
     rw [← hlen', hbuf]; cases e <;> simp
@@ -477,25 +500,85 @@ theorem peekK_spec (kk : Nat) (s : PState) (toks : List Tk) (t : Tk) (h : SeesT 
     simp only at htk hti
     rw [← htk, hti, hi]
 
-/-- going back over one token that is still in the buffer (`_reset(mark)` right after an `_advance`) -/
-theorem reset_one (s : PState) (toks : List Tk) (m : Nat) (t : PTok) (h : SeesT ty s toks) (hi : s.idx = m + 1)
-    (hb : s.buf[m]? = some (some t)) :
-    ∃ s', reset m s = .ok () s' ∧ SeesT ty s' ((t.kind, t.val) :: toks) ∧ isTypeInScopes s'.scopes = ty ∧ s'.idx = m ∧
+/-- the tokens still to come are the rest of the whole input -/
+theorem SeesT.all_drop {s : PState} {toks : List Tk} (h : SeesT env s toks) : env.all.drop s.idx = toks := by
+  obtain ⟨ht, hht, hall⟩ := h.hist
+  have hlen : ht.length = s.idx := by
+    have := congrArg List.length hht
+    simp at this
+    have := h.idx_le
+    omega
+  rw [hall, List.drop_append_of_le_length (by simp [hlen])]
+  simp [hlen]
+
+/-- `_reset(mark)`: going back to any earlier position restores what was visible there - the tokens
+consumed since are still in the buffer -/
+theorem reset_spec (s : PState) (toks : List Tk) (m : Nat) (h : SeesT env s toks) (hm : m ≤ s.idx) :
+    ∃ s', reset m s = .ok () s' ∧ SeesT env s' (env.all.drop m) ∧ isTypeInScopes s'.scopes = env.ty ∧ s'.idx = m ∧
       BufExt s s' ∧ s.buf.size ≤ s'.buf.size := by
-  obtain ⟨⟨bt, rt, e, hbuf, hraw, htoks, he, hneu, hpul⟩, hle, hpos⟩ := h
+  obtain ⟨⟨bt, rt, e, hbuf, hraw, htoks, he, hneu, hpul⟩, hle, hpos, hhist⟩ := h
+  obtain ⟨ht, hht, hall⟩ := hhist
+  have hlen : ht.length = s.idx := by
+    have := congrArg List.length hht
+    simp at this
+    omega
+  have hsplit : s.buf.toList = s.buf.toList.take s.idx ++ s.buf.toList.drop s.idx := (List.take_append_drop _ _).symm
+  have hdropm : env.all.drop m = (ht.drop m).map (fun t => (t.kind, t.val)) ++ toks := by
+    rw [hall, List.drop_append_of_le_length (by simp [hlen]; exact hm)]
+    simp
   refine ⟨{ s with idx := m, ticks := s.ticks + 1 }, rfl,
-    ⟨⟨t :: bt, rt, e, ?_, hraw, by simp [htoks], he, hneu, hpul⟩, by show m ≤ s.buf.size; omega, hpos⟩,
+    ⟨⟨ht.drop m ++ bt, rt, e, ?_, hraw, ?_, he, hneu, hpul⟩, by show m ≤ s.buf.size; omega, hpos, ⟨ht.take m, ?_, ?_⟩⟩,
     hneu.funext, rfl, fun _ _ => rfl, Nat.le_refl _⟩
-  show s.buf.toList.drop m = _
-  have hlt : m < s.buf.toList.length := by
-    have := (Array.getElem?_eq_some_iff.mp hb).1; simpa using this
-  rw [List.drop_eq_getElem_cons hlt]
-  have hg : s.buf.toList[m] = some t := by
-    have := hb
-    rw [← Array.getElem?_toList, List.getElem?_eq_getElem hlt] at this
-    exact Option.some.inj this
-  rw [hg, ← hi, hbuf]
-  simp
+  · show s.buf.toList.drop m = _
+    rw [hsplit, hht, hbuf, List.drop_append_of_le_length (by simp [hlen]; exact hm)]
+    simp
+  · rw [hdropm, htoks]; simp
+  · show s.buf.toList.take m = _
+    have : s.buf.toList.take m = (s.buf.toList.take s.idx).take m := by
+      rw [List.take_take]; congr 1; omega
+    rw [this, hht]; simp
+  · rw [hdropm, ← List.append_assoc, ← List.map_append, List.take_append_drop]
+    exact hall
+
+/-- going back to a position where the view was known: the same view again -/
+theorem reset_to (s0 s : PState) (toks0 toks : List Tk) (h0 : SeesT env s0 toks0) (h : SeesT env s toks)
+    (hm : s0.idx ≤ s.idx) :
+    ∃ s', reset s0.idx s = .ok () s' ∧ SeesT env s' toks0 ∧ s'.idx = s0.idx := by
+  obtain ⟨s', hr, hs', _, hi, _⟩ := reset_spec s toks s0.idx h hm
+  rw [h0.all_drop] at hs'
+  exact ⟨s', hr, hs', hi⟩
+
+/-- going back over one token that is still in the buffer (`_reset(mark)` right after an `_advance`) -/
+theorem reset_one (s : PState) (toks : List Tk) (m : Nat) (t : PTok) (h : SeesT env s toks) (hi : s.idx = m + 1)
+    (hb : s.buf[m]? = some (some t)) :
+    ∃ s', reset m s = .ok () s' ∧ SeesT env s' ((t.kind, t.val) :: toks) ∧ isTypeInScopes s'.scopes = env.ty ∧ s'.idx = m ∧
+      BufExt s s' ∧ s.buf.size ≤ s'.buf.size := by
+  obtain ⟨s', hr, hs', hty, hidx, hext, hsz⟩ := reset_spec s toks m h (by omega)
+  refine ⟨s', hr, ?_, hty, hidx, hext, hsz⟩
+  obtain ⟨ht, hht, hall⟩ := h.hist
+  have hle := h.idx_le
+  have hlen : ht.length = m + 1 := by
+    have := congrArg List.length hht
+    simp at this
+    omega
+  have hm : ht[m]? = some t := by
+    have h1 : (s.buf.toList.take s.idx)[m]? = some (some t) := by
+      rw [List.getElem?_take_of_lt (by omega), Array.getElem?_toList]; exact hb
+    rw [hht, List.getElem?_map] at h1
+    cases hx : ht[m]? with
+    | none => rw [hx] at h1; cases h1
+    | some x => rw [hx] at h1; simp at h1; rw [h1]
+  have hd : ht.drop m = [t] := by
+    have hlt : m < ht.length := by omega
+    rw [List.drop_eq_getElem_cons hlt, List.drop_of_length_le (by omega)]
+    have := List.getElem?_eq_getElem hlt
+    rw [hm] at this
+    rw [← Option.some.inj this]
+  have : env.all.drop m = (t.kind, t.val) :: toks := by
+    rw [hall, List.drop_append_of_le_length (by simp [hlen]), ← List.map_drop, hd]
+    rfl
+  rw [this] at hs'
+  exact hs'
 
 /-! ## registering an ordinary identifier that is not a type name -/
 
@@ -528,10 +611,11 @@ theorem mem_scopeSet {sc : Scope} {n : String} {b : Bool} {e : String × Bool} (
 
 /-- `_add_identifier(n)` for a name that is not a type name keeps the static environment, hence
 the token view -/
-theorem addIdentifier_spec (s : PState) (toks : List Tk) (n : String) (c : Option Coord) (h : SeesT ty s toks)
-    (hn : ty n = false) :
-    ∃ s', addIdentifier n c s = .ok () s' ∧ SeesT ty s' toks ∧ s'.idx = s.idx ∧ s'.buf = s.buf := by
-  obtain ⟨⟨bt, rt, e, hbuf, hraw, htoks, he, hneu, hpul⟩, hle, hpos⟩ := h
+theorem addIdentifier_spec (s : PState) (toks : List Tk) (n : String) (c : Option Coord) (h : SeesT env s toks)
+    (hn : env.ty n = false) :
+    ∃ s', addIdentifier n c s = .ok () s' ∧ SeesT env s' toks ∧ s'.idx = s.idx ∧ s'.buf = s.buf := by
+  obtain ⟨⟨bt, rt, e, hbuf, hraw, htoks, he, hneu, hpul⟩, hle, hpos, hhist⟩ := h
+  obtain ⟨ht, hht, hallT⟩ := hhist
   obtain ⟨hall, init, last, heq, hlast⟩ := hneu
   cases hsc : s.scopes with
   | nil => rw [hsc] at heq; simp at heq
@@ -544,7 +628,7 @@ theorem addIdentifier_spec (s : PState) (toks : List Tk) (n : String) (c : Optio
         simp only at this
         rw [this, hn]; rfl
     -- the new stack agrees with the same environment
-    have hag : Agrees ty (scopeSet sc n false :: rest) := by
+    have hag : Agrees env.ty (scopeSet sc n false :: rest) := by
       refine ⟨?_, ?_⟩
       · intro sc' hsc' e' he'
         simp only [List.mem_cons] at hsc'
@@ -565,7 +649,7 @@ theorem addIdentifier_spec (s : PState) (toks : List Tk) (n : String) (c : Optio
         | cons a init' =>
           simp only [List.cons_append, List.cons.injEq] at heq
           exact ⟨scopeSet sc n false :: init', last, by rw [heq.2]; rfl, hlast⟩
-    refine ⟨{ s with scopes := scopeSet sc n false :: rest }, ?_, ⟨⟨bt, rt, e, hbuf, hraw, htoks, he, hag, hpul⟩, hle, hpos⟩, rfl, rfl⟩
+    refine ⟨{ s with scopes := scopeSet sc n false :: rest }, ?_, ⟨⟨bt, rt, e, hbuf, hraw, htoks, he, hag, hpul⟩, hle, hpos, ⟨ht, hht, hallT⟩⟩, rfl, rfl⟩
     unfold addIdentifier
     rw [hsc]
     simp [hlk]
